@@ -1,0 +1,7 @@
+//go:build verif
+
+package lossy
+
+import "unsafe"
+
+func workerID(w *RowWorker) uintptr { return uintptr(unsafe.Pointer(w)) }
